@@ -100,6 +100,20 @@ class Driver:
     def ask1(self, line):
         return self.ask([line])[0]
 
+    def ask_parallel(self, lines, procs=16, min_chunk=200):
+        """Like ask(), but splits a big batch over several driver processes (order preserved)."""
+        lines = list(lines)
+        if len(lines) < 2 * min_chunk:
+            return self.ask(lines)
+        import concurrent.futures as cf
+        n = max(1, min(procs, len(lines) // min_chunk))
+        size = (len(lines) + n - 1) // n
+        chunks = [lines[i:i + size] for i in range(0, len(lines), size)]
+        with cf.ThreadPoolExecutor(len(chunks)) as ex:
+            outs = list(ex.map(Driver(self.path).ask, chunks))
+        self.lines += len(lines)
+        return [o for out in outs for o in out]
+
 
 def sexp(x):
     """Python value -> protocol S-expression text."""
@@ -278,9 +292,9 @@ def lean_audit(pid, imports, theorems):
             os.unlink(path)
     out = p.stdout.decode("utf-8", "replace")
     axioms = {}
-    for m in re.finditer(r"'([^']+)' depends on axioms: \[([^\]]*)\]", out, re.S):
+    for m in re.finditer(r"'(\S+)' depends on axioms: \[([^\]]*)\]", out, re.S):
         axioms[m.group(1)] = [a.strip() for a in m.group(2).replace("\n", " ").split(",") if a.strip()]
-    for m in re.finditer(r"'([^']+)' does not depend on any axioms", out):
+    for m in re.finditer(r"'(\S+)' does not depend on any axioms", out):
         axioms[m.group(1)] = []
     discharged, problems = [], []
     for t in theorems:
